@@ -87,6 +87,21 @@ def c10(pid, tier, replay):
         if st and not st["rejected"]:
             raise core.ToolError("binding self-test failed")
     run_parts(res, "TraceYSrc", lines, dict(PROP="C10"), 1 if replay else (14 if tier == "thorough" else 6), byid, seed)
+    # second, independent route to the same statement: text -> AST (YaccParse.tla) -> grammar object
+    # (AstGrammar.tla), predicted from the rendered text alone and compared with what the code built
+    from . import p_yparse
+    kmap = {"original": "original", "original_noaction": "original", "original_useraction": "original", "grmtools": "grmtools", "eco": "eco"}
+    step = 1 if tier == "quick" or replay else 4
+    titems = [dict(id=i["id"], entry="yast_" + kmap.get(i["kind"], "original"), s=i["y"]) for i in insts[::step]]
+    tjob = os.path.join(res.wd, "tjob.json")
+    ttrace = os.path.join(res.wd, "ttrace.ndjson")
+    with open(tjob, "w") as f:
+        json.dump(dict(items=titems, workers=max(2, core.NCPU - 4), timeout_ms=4000), f)
+    core.run_vh(["total", tjob, ttrace], timeout=3000)
+    yl = p_yparse.events(titems, open(ttrace).readlines())
+    res.notes["text_to_grammar_predicted"] = len(yl)
+    if yl:
+        run_parts(res, "TraceYaccParse", yl, dict(PROP="C10"), 1 if replay else (14 if tier == "thorough" else 6), byid, seed)
     for i in insts[:2]:
         res.sample(dict(id=i["id"], kind=i["kind"], y=i["y"]))
     res.assumptions += ["documents are generated valid; invalid / near-valid sources are C12's business",
